@@ -302,7 +302,8 @@ def replay_wiring(args):
     yadism.log.silent_mode = True
     mode = args["mode"]
     t, o = c06.cards(dict(mc=1.51, mb=4.92, mt=172.5, kc=1.0, kb=1.0, kt=1.0, Q2=10.0), "ZM-VFNS", 4, pto=0)
-    t.update(TMC=mode, MP=0.9383)
+    mp = float(args.get("MP", 0.9383))
+    t.update(TMC=mode, MP=mp)
     try:
         r = Runner(t, o)
     except Exception as e:  # noqa
@@ -310,8 +311,8 @@ def replay_wiring(args):
     got = r.configs.TMC
     if got != mode:
         return True, f"the run is configured with TMC={got!r}, the card says {mode}"
-    if abs(float(r.configs.M2target) - 0.9383**2) > 1e-12:
-        return True, f"the run is configured with M2target={r.configs.M2target!r}, the card says MP=0.9383"
+    if abs(float(r.configs.M2target) - mp**2) > 1e-12:
+        return True, f"the run is configured with M2target={r.configs.M2target!r}, the card says MP={mp} (M = 0 is an admissible target mass: no correction)"
     obj = r.observables["F2_total"].elements[0]
     if isinstance(obj, tmc.EvaluatedStructureFunctionTMC) != (mode != 0):
         return True, f"the requested point is served by {type(obj).__name__}"
@@ -339,7 +340,7 @@ def run(chk, only=None):
     chk.assume("approximate mode oracle: F2, F3 Schienbein et al. closed approximations; FL, g1 'integrand frozen at the bottom end' "
                "(docs/theory/misc.rst)", "accuracy of the j-sum as an interpolation of the integral is outside (C01/C19)")
     for kind, mode, flav in itertools.product(KINDS, (1, 2, 3), ("total", "charm")):
-        if chk.tier == "quick" and flav == "charm" and mode != 3:
+        if chk.tier == "quick" and flav == "charm" and mode == 1:
             continue
         if only and only != kind:
             continue
@@ -407,12 +408,12 @@ def run(chk, only=None):
     if not chk.first:
         return chk.finish(explanation="shard of C10 (see the merged evidence)", rule="")
     # wiring: the mode and the target mass the formulas are evaluated with are the ones of the cards (through the real Runner)
-    for mode in (0, 1, 2, 3):
+    for mode, mp in itertools.product((0, 1, 2, 3), (0.9383, 0.0, 2.5)):
         chk.obligations += 1
         chk.evaluations += 1
-        bad, detail = replay_wiring(dict(mode=mode))
+        bad, detail = replay_wiring(dict(mode=mode, MP=mp))
         if bad:
-            chk.report("tmc:wiring", f"TMC={mode}: {detail}", "wiring", dict(mode=mode))
+            chk.report("tmc:wiring", f"TMC={mode}, MP={mp}: {detail}", "wiring", dict(mode=mode, MP=mp))
         else:
             chk.discharged += 1
     with Ctx(chk.seed) as ctx:
